@@ -2,7 +2,7 @@
 # seedregress.sh : run every stored seed (seeded/*/meta.json: breaks_property) against the current checks on a copy of
 # /repo (tools/seedeval.sh) and print one line per seed: CAUGHT / MISSED.  Replays are skipped (VERIF_MAX_REPLAYS=0).
 export VERIF_MAX_REPLAYS=0
-for d in seeded/[mnp]*/; do
+for d in seeded/[mnpq]*/; do
   id=$(basename $d)
   prop=$(python3 -c "import json;print(json.load(open('$d/meta.json'))['breaks_property'])")
   out=$(tools/seedeval.sh $id $prop 2>&1)
